@@ -50,6 +50,7 @@ let pend_app : (int, (int * int * entry) Queue.t) Hashtbl.t = Hashtbl.create 16 
 
 (* counters *)
 let n_labels = ref 0 and n_matches = ref 0 and n_events = ref 0 and n_applied = ref 0
+let n_fixed = ref 0 and n_overlap_ok = ref 0
 let label_hist : (string, int) Hashtbl.t = Hashtbl.create 32
 let skipped : (string, int) Hashtbl.t = Hashtbl.create 8
 let bump h k = Hashtbl.replace h k (1 + (try Hashtbl.find h k with Not_found -> 0))
@@ -475,7 +476,11 @@ let end_trace () =
   (* every live node without an unsent Ready must coincide with its abstract counterpart *)
   Hashtbl.iter (fun j r -> if r.alive && not r.sendpending then check_match j r "end of trace") last;
   let left = Hashtbl.fold (fun _ q acc -> acc + Queue.length q) pend_app 0 in
-  if left > 0 then bump skipped "applied_after_unsynced_commit_at_trace_end"
+  if left > 0 then bump skipped "applied_after_unsynced_commit_at_trace_end";
+  (* the hypothesis of the membership-change theorems, evaluated on the voter lists this trace counted majorities over *)
+  let nc = int_ (n_configs !st) in
+  if nc <= 1 then incr n_fixed;
+  if overlap_state !st then incr n_overlap_ok else bump skipped "overlap_hypothesis_not_met(theorems_do_not_apply_to_this_trace)"
 
 let hist_str h =
   let l = Hashtbl.fold (fun k v acc -> (k, v) :: acc) h [] in
@@ -506,7 +511,7 @@ let () =
           Printf.printf "%s\tREJECT\t%d\t%s n=%d\tdriver failure: %s\n" !cur_tid e.seq e.kind e.en why
       end in
   read_lines stdin (fun line ->
-      match split_on '\t' line with
+      try match split_on '\t' line with
       | "T" :: tid :: _ -> cur_tid := tid; rejected := false; incr n_traces
       | "E" :: seq :: kind :: n :: subs :: x :: _ ->
         cur_ev := Some { seq = ios seq; kind; en = ios n; subs = (if subs = "-" then [] else split_on ',' subs); ex = ios x;
@@ -531,6 +536,8 @@ let () =
           (try end_trace (); Printf.printf "%s\tOK\n" !cur_tid
            with Reject why -> incr n_rej; Printf.printf "%s\tREJECT\t-1\tend\t%s\n" !cur_tid why)
         end
-      | _ -> ());
-  Printf.printf "SUMMARY\ttraces=%d\trejected=%d\tskipped_traces=%d\tevents=%d\tunchecked_events=%d\tabstract_steps=%d\tnode_matches=%d\tapplied_checked=%d\tlabels:%s\tevents:%s\tskipped:%s\n"
-    !n_traces !n_rej !n_skip !n_events !unchecked !n_labels !n_matches !n_applied (hist_str label_hist) (hist_str ev_hist) (hist_str skipped)
+      | _ -> ()
+      with Failure why -> (if not !rejected then begin rejected := true; incr n_rej;
+                             Printf.printf "%s\tREJECT\t-1\tinput\tmalformed trace line (%s)\n" !cur_tid why end));
+  Printf.printf "SUMMARY\ttraces=%d\trejected=%d\tskipped_traces=%d\tevents=%d\tunchecked_events=%d\tabstract_steps=%d\tnode_matches=%d\tapplied_checked=%d\tsingle_config_traces=%d\toverlap_ok_traces=%d\tlabels:%s\tevents:%s\tskipped:%s\n"
+    !n_traces !n_rej !n_skip !n_events !unchecked !n_labels !n_matches !n_applied !n_fixed !n_overlap_ok (hist_str label_hist) (hist_str ev_hist) (hist_str skipped)
